@@ -111,6 +111,10 @@ class Policy:
         except Exception as exc:
             self._handle_exception_call(ctx, exc, on_attempt_end)
             raise
+        except BaseException:
+            # GeneratorExit / CancelledError / any other non-Exception: the admitted call is over
+            record_cancel(ctx)
+            raise
 
     def _call_without_retry(
         self,
@@ -145,6 +149,7 @@ class Policy:
         on_end: AttemptHook | None,
     ) -> None:
         """Handle AbortRetryError in call mode."""
+        record_cancel(ctx)
         if self.retry is None and on_end is not None:
             on_end(
                 make_attempt_context(
@@ -156,7 +161,6 @@ class Policy:
                     stop_reason=StopReason.ABORTED,
                 )
             )
-        record_cancel(ctx)
 
     def _handle_exhausted_call(
         self,
@@ -175,7 +179,16 @@ class Policy:
     ) -> None:
         """Handle general exception in call mode."""
         if isinstance(exc, CircuitOpenError):
+            # A nested breaker rejected the call: not a failure of this dependency,
+            # but this admitted call is over, so release the probe slot.
+            record_cancel(ctx)
             return
+
+        try:
+            klass = classify_for_breaker(exc, self.retry)
+        except Exception:
+            klass = ErrorClass.UNKNOWN
+        record_failure(ctx, klass)
 
         if self.retry is None and on_end is not None:
             on_end(
@@ -188,9 +201,6 @@ class Policy:
                     cause="exception",
                 )
             )
-
-        klass = classify_for_breaker(exc, self.retry)
-        record_failure(ctx, klass)
 
     def execute(
         self,
@@ -258,19 +268,32 @@ class Policy:
         """Execute with retry and record result with breaker."""
         retry = self.retry
         assert retry is not None
-        outcome = retry.execute(
-            func,
-            on_metric=on_metric,
-            on_log=on_log,
-            operation=operation,
-            abort_if=abort_if,
-            sleep=sleep,
-            before_sleep=before_sleep,
-            sleeper=sleeper,
-            on_attempt_start=on_attempt_start,
-            on_attempt_end=on_attempt_end,
-            capture_timeline=capture_timeline,
-        )
+        try:
+            outcome = retry.execute(
+                func,
+                on_metric=on_metric,
+                on_log=on_log,
+                operation=operation,
+                abort_if=abort_if,
+                sleep=sleep,
+                before_sleep=before_sleep,
+                sleeper=sleeper,
+                on_attempt_start=on_attempt_start,
+                on_attempt_end=on_attempt_end,
+                capture_timeline=capture_timeline,
+            )
+        except RetryExhaustedError as exc:
+            self._handle_exhausted_call(ctx, exc)
+            raise
+        except AbortRetryError:
+            record_cancel(ctx)
+            raise
+        except Exception as exc:
+            self._handle_exception_call(ctx, exc, None)
+            raise
+        except BaseException:
+            record_cancel(ctx)
+            raise
 
         # Record with circuit breaker
         if ctx.breaker is not None:
@@ -332,6 +355,10 @@ class Policy:
                     )
                 )
             return build_exception_outcome_no_retry(ctx, exc, klass)
+
+        except BaseException:
+            record_cancel(ctx)
+            raise
 
         # Success
         record_success(ctx)
